@@ -1,6 +1,7 @@
 package main
 
 import (
+	"math/big"
 	"fmt"
 	"os"
 	"runtime/debug"
@@ -355,6 +356,32 @@ func (fx *FuncExec) run() {
 		// a free variable is a pointer to the captured cell; expose the cell's value by name
 		fx.paramEntry["&"+fv.Name()] = v
 	}
+	if fx.con != nil {
+		// `heap x`: x is an unknown reference into the heap (it may alias objects stored in containers)
+		for _, hn := range fx.con.HeapPtrs {
+			found := false
+			for _, p := range fn.Params {
+				if p.Name() == hn {
+					v := PtrV{Sym: fx.c.fresh(hn+".ref", SRef).S, Typ: p.Type()}
+					st.regs[p] = v
+					fx.paramEntry[hn] = v
+					vars[hn] = v
+					found = true
+				}
+			}
+			for _, fv := range fn.FreeVars {
+				if fv.Name() == hn {
+					if cell, ok := st.regs[fv].(PtrV); ok {
+						st.store(cell, PtrV{Sym: fx.c.fresh(hn+".ref", SRef).S, Typ: fv.Type().(*types.Pointer).Elem()})
+						found = true
+					}
+				}
+			}
+			if !found {
+				fx.specErrs = append(fx.specErrs, fmt.Sprintf("%s: heap %s: no such parameter or captured variable", fx.con.Line, hn))
+			}
+		}
+	}
 	for id := range st.objs {
 		fx.entryObjs[id] = true
 	}
@@ -643,6 +670,22 @@ func (fx *FuncExec) specEnv(ps *pathState, pos token.Pos, vars map[string]Val) *
 
 func (fx *FuncExec) loopVars(ps *pathState, li *LoopInfo) map[string]Val {
 	vars := map[string]Val{}
+	// range over a map: the ghost set of keys visited so far, as a set-like map value
+	for _, in := range li.header.Instrs {
+		if n, ok := in.(*ssa.Next); ok && !n.IsString {
+			if rg, ok := n.Iter.(*ssa.Range); ok {
+				if mt, ok := rg.X.Type().Underlying().(*types.Map); ok {
+					ks := ps.st.keySort(mt.Key())
+					vsort := "(Array " + ks + " Bool)"
+					vis, have := ps.st.iterVisited[rg]
+					if !have {
+						vis = Term{"((as const " + vsort + ") false)", vsort}
+					}
+					vars["rangevisited"] = MapV{Dom: vis, Len: intLit(0), Nil: tFalse, Typ: types.NewMap(mt.Key(), types.Typ[types.Bool])}
+				}
+			}
+		}
+	}
 	// rangeindex: the Alloc loaded by the first instruction of the header
 	for _, in := range li.header.Instrs {
 		if u, ok := in.(*ssa.UnOp); ok && u.Op == token.MUL {
@@ -655,6 +698,13 @@ func (fx *FuncExec) loopVars(ps *pathState, li *LoopInfo) map[string]Val {
 				// the fixed bound of a range loop: the value the incremented counter is compared with
 				for _, in2 := range li.header.Instrs {
 					if b, ok := in2.(*ssa.BinOp); ok && b.Op == token.LSS {
+						if lc, ok := b.Y.(*ssa.Call); ok {
+							if bi, ok := lc.Common().Value.(*ssa.Builtin); ok && bi.Name() == "len" && len(lc.Common().Args) == 1 {
+								if sv, ok := ps.st.regs[lc.Common().Args[0]]; ok {
+									vars["rangeseq"] = sv
+								}
+							}
+						}
 						if lv, ok := ps.st.regs[b.Y]; ok {
 							vars["rangelen"] = lv
 						} else if c, ok := b.Y.(*ssa.Const); ok && c.Value != nil {
@@ -681,6 +731,32 @@ func (fx *FuncExec) isRangeLoop(li *LoopInfo) bool {
 	return false
 }
 
+func (fx *FuncExec) isMapRangeLoop(li *LoopInfo) bool {
+	for _, in := range li.header.Instrs {
+		if n, ok := in.(*ssa.Next); ok && !n.IsString {
+			return true
+		}
+	}
+	return false
+}
+
+// rangeCounterBounds: the hidden counter of a range loop stays in [-1, bound] (it starts at -1 and is
+// only incremented while below the bound).
+func (fx *FuncExec) rangeCounterBounds(ps *pathState, li *LoopInfo) {
+	lv := fx.loopVars(ps, li)
+	ri, ok1 := lv["rangeindex"].(Scalar)
+	rl, ok2 := lv["rangelen"].(Scalar)
+	if ok1 && ok2 {
+		ps.st.assumeGlobal(tAnd(tLe(intLit(-1), ri.T), tLt(ri.T, tAdd(rl.T, intLit(1)))))
+		if _, hi, ok := ps.st.boundOf(rl.T.S, 0); ok {
+			if ps.st.bounds == nil {
+				ps.st.bounds = map[string][2]*big.Int{}
+			}
+			ps.st.bounds[ri.T.S] = [2]*big.Int{big.NewInt(-1), hi}
+		}
+	}
+}
+
 func (fx *FuncExec) autoRangeVariant(ps *pathState, li *LoopInfo) {
 	lv := fx.loopVars(ps, li)
 	ri, ok1 := lv["rangeindex"].(Scalar)
@@ -689,6 +765,12 @@ func (fx *FuncExec) autoRangeVariant(ps *pathState, li *LoopInfo) {
 		// the hidden counter never exceeds the bound (it is only incremented while below it)
 		// (a fact about this iteration's fresh counter symbol: it survives modular cuts of inner loops)
 		ps.st.assumeGlobal(tAnd(tLe(intLit(-1), ri.T), tLt(ri.T, tAdd(rl.T, intLit(1)))))
+		if _, hi, ok := ps.st.boundOf(rl.T.S, 0); ok {
+			if ps.st.bounds == nil {
+				ps.st.bounds = map[string][2]*big.Int{}
+			}
+			ps.st.bounds[ri.T.S] = [2]*big.Int{big.NewInt(-1), hi}
+		}
 		ps.variants[li] = []Term{tSub(rl.T, ri.T)}
 	}
 }
@@ -765,6 +847,8 @@ func (fx *FuncExec) execBlock(ps *pathState, blk *ssa.BasicBlock, pred *ssa.Basi
 						}
 						fx.addObl(fmt.Sprintf("dec loop#%d", li.ord), "dec", fx.propDefault(), "range loop: the counter approaches its fixed bound", fx.con.Line, false, st, tAnd(tLt(cur, prev[0]), tLe(intLit(0), prev[0])), ps.trail)
 					}
+				} else if (li.spec == nil || len(li.spec.Dec) == 0) && fx.isMapRangeLoop(li) {
+					// a range over a map visits each key at most once: it terminates (no variant needed)
 				} else if li.spec == nil || len(li.spec.Dec) == 0 {
 					if fx.con != nil && !fx.con.Trusted {
 						// a loop under contract without a variant: termination is not proved
@@ -795,6 +879,10 @@ func (fx *FuncExec) execBlock(ps *pathState, blk *ssa.BasicBlock, pred *ssa.Basi
 				}
 				fx.cutDone[li] = true
 				st.pc = append([]Term(nil), st.keep...)
+				st.facts = nil
+				for _, k := range st.keep {
+					st.noteFacts(k.S, 0)
+				}
 			}
 			if ps.loopSnap == nil {
 				ps.loopSnap = map[int]*State{}
@@ -821,6 +909,8 @@ func (fx *FuncExec) execBlock(ps *pathState, blk *ssa.BasicBlock, pred *ssa.Basi
 			}
 			if fx.con != nil && (li.spec == nil || len(li.spec.Dec) == 0) && fx.isRangeLoop(li) {
 				fx.autoRangeVariant(ps, li)
+			} else if fx.isRangeLoop(li) {
+				fx.rangeCounterBounds(ps, li)
 			}
 		}
 	}
@@ -866,6 +956,18 @@ func (fx *FuncExec) execControl(ps *pathState, blk *ssa.BasicBlock, in ssa.Instr
 				return true
 			}
 			if cv.T.S == "false" {
+				fx.execBlock(ps, blk.Succs[1], blk)
+				return true
+			}
+			// (the literal is appended again so that the surviving path's queries are textually the same
+			// as without pruning: some proofs are sensitive to the shape of the path condition)
+			if st.knownTrue(cv.T) {
+				st.pc = append(st.pc, cv.T)
+				fx.execBlock(ps, blk.Succs[0], blk)
+				return true
+			}
+			if st.knownFalse(cv.T) {
+				st.pc = append(st.pc, tNot(cv.T))
 				fx.execBlock(ps, blk.Succs[1], blk)
 				return true
 			}
@@ -981,6 +1083,12 @@ func (fx *FuncExec) frameCheck(ps *pathState) {
 	}
 	allowed := map[loc]bool{}
 	wholeObj := map[ObjID]bool{}
+	type heapLoc struct {
+		name string
+		ref  Term
+	}
+	var heapAllowed []heapLoc
+	var heapEvery []string
 	vars := map[string]Val{}
 	for k, v := range fx.paramEntry {
 		vars[k] = v
@@ -992,13 +1100,22 @@ func (fx *FuncExec) frameCheck(ps *pathState) {
 	}
 	env := &SpecEnv{st: fx.entry, old: fx.entry, vars: vars, fx: nil, lvFx: fx}
 	for _, cl := range fx.con.Modifies {
+		if nm, _, ok := fx.pk.everyField(cl.Expr); ok {
+			heapEvery = append(heapEvery, nm)
+			continue
+		}
 		p, v, ok := env.lvalue(cl.Expr)
 		if !ok {
 			fx.specErrs = append(fx.specErrs, fmt.Sprintf("%s: cannot resolve modifies %s: %v", cl.Line, cl.Text, env.err))
 			env.err = nil
 			continue
 		}
-		if p.Obj != 0 {
+		if p.Sym != "" {
+			if et, ok := symStructElem(p); ok {
+				_, name, _ := heapPath(et, typeKey(et), p.Path)
+				heapAllowed = append(heapAllowed, heapLoc{name, Term{p.Sym, SRef}})
+			}
+		} else if p.Obj != 0 {
 			if len(p.Path) == 0 {
 				wholeObj[p.Obj] = true
 			} else if p.Path[0].Field >= 0 {
@@ -1037,6 +1154,53 @@ func (fx *FuncExec) frameCheck(ps *pathState) {
 		if !sameVal(ov, nv) {
 			fx.addObl("frame", "frame", fx.con.Prop, "only locations named by modifies change", fx.con.Line, false, st, st.eqVal(ov, nv), ps.trail)
 		}
+	}
+	// heap arrays (fields of struct objects behind unknown pointers)
+	var hnames []string
+	if st.epoch != fx.entry.epoch {
+		for n := range fx.c.heapSorts {
+			hnames = append(hnames, n)
+		}
+	} else {
+		seen := map[string]bool{}
+		for n := range st.heap {
+			seen[n] = true
+		}
+		for n := range fx.entry.heap {
+			seen[n] = true
+		}
+		for n := range seen {
+			hnames = append(hnames, n)
+		}
+	}
+	sort.Strings(hnames)
+	for _, n := range hnames {
+		he, hf := fx.entry.harrN(n), st.harrN(n)
+		if he.S == hf.S {
+			continue
+		}
+		every := false
+		for _, e := range heapEvery {
+			if n == e || strings.HasPrefix(n, e+"_") {
+				every = true
+			}
+		}
+		if every {
+			continue
+		}
+		var except []Term
+		r := Term{fx.c.boundName("r"), SRef}
+		for _, a := range heapAllowed {
+			if n == a.name || strings.HasPrefix(n, a.name+"_") {
+				except = append(except, tNot(tEq(r, a.ref)))
+			}
+		}
+		body := tEq(tSelect(hf, r), tSelect(he, r))
+		if len(except) > 0 {
+			body = tImplies(tAnd(except...), body)
+		}
+		goal := Term{fmt.Sprintf("(forall ((%s Ref)) %s)", r.S, body.S), SBool}
+		fx.addObl("frame", "frame", fx.con.Prop, "only locations named by modifies change", fx.con.Line, false, st, goal, ps.trail)
 	}
 	if _, ok := fx.obls["frame"]; !ok {
 		fx.addObl("frame", "frame", fx.con.Prop, "only locations named by modifies change", fx.con.Line, false, st, tTrue, ps.trail)
